@@ -89,6 +89,14 @@ func r3tokenize(s string, pos int, stop byte) ([]r3tok, int, error) {
 			j := r3number(s, pos+1)
 			toks = append(toks, r3tok{kind: 'n', text: s[pos:j]})
 			pos = j
+		case c == '.' && pos > 0 && (s[pos-1] == ']' || s[pos-1] == ')') && pos+1 < len(s) && isIdent(s[pos+1]) && !isDigit(s[pos+1]):
+			// .field directly after an index or a call: a selector (binding power 80)
+			j := pos + 1
+			for j < len(s) && isIdent(s[j]) && s[j] != '.' {
+				j++
+			}
+			toks = append(toks, r3tok{kind: 'd', text: s[pos:j]})
+			pos = j
 		case isIdent(c):
 			j := pos
 			for j < len(s) && isIdent(s[j]) {
@@ -171,7 +179,7 @@ func (p *r3parser) lbp() int {
 	switch t.kind {
 	case 'o':
 		return r3bp[t.text] // ';' ':' and 'not' have none: 0
-	case 'x':
+	case 'x', 'd':
 		return 80
 	}
 	return 0
@@ -249,6 +257,10 @@ func (p *r3parser) expr(rbp int) (string, error) {
 		}
 		op := p.toks[p.pos]
 		p.pos++
+		if op.kind == 'd' {
+			left = "(hashidx " + left + " " + op.text + ")"
+			continue
+		}
 		if op.kind == 'x' {
 			sel, err := r3selector(op.sub)
 			if err != nil {
